@@ -9,7 +9,7 @@ PROPERTY = "C16"
 
 
 def contracts(tier):
-    return [dict(file="c16_apply.py", timeout=90 if tier == "quick" else 400)]
+    return [dict(file="c16_apply.py", timeout=150 if tier == "quick" else 400)]
 
 
 def _completers(ctx, ins, kinds, vals, excs, split):
